@@ -63,6 +63,9 @@ ROOT = [
     ("C15", "get_action/Dict[images-only]", "EvolvableMultiInput fails on image-only Dict/Tuple members (torch.cat of feature maps)"),
     ("C15", "get_action/Tuple[images-only]", "EvolvableMultiInput fails on image-only Dict/Tuple members (torch.cat of feature maps)"),
     ("C15", "get_action/", "EvolvableMultiInput fails on rank-2 Box members of Dict/Tuple spaces"),
+    ("C03", "EvolvableNetwork/parent-then-nested", "after an in-place add_latent_node (no clone in between) the network's nested encoder.*/head_net.*/feature_net.* mutation methods stay bound to the discarded sub-modules (which share their hidden_size/channel_size lists with the live ones): attributes change, the live model does not, and clone() silently returns freshly initialised weights. Not reachable through Mutations (which mutates clones)"),
+    ("C03", "EvolvableMultiInput/parent-then-nested", "after an in-place add_latent_node (no clone in between) the network's nested encoder.*/head_net.*/feature_net.* mutation methods stay bound to the discarded sub-modules (which share their hidden_size/channel_size lists with the live ones): attributes change, the live model does not, and clone() silently returns freshly initialised weights. Not reachable through Mutations (which mutates clones)"),
+    ("C04", "EvolvableNetwork/parent-then-nested", "after an in-place add_latent_node (no clone in between) the network's nested encoder.*/head_net.*/feature_net.* mutation methods stay bound to the discarded sub-modules (which share their hidden_size/channel_size lists with the live ones): attributes change, the live model does not, and clone() silently returns freshly initialised weights. Not reachable through Mutations (which mutates clones)"),
     ("C03", "StochasticActor/head_net", "EvolvableDistribution (StochasticActor head) advertises the wrapped MLP's mutation methods but disables the wrapped lists, so every head_net.* mutation is a silent no-op"),
     ("C03", "ValueNetwork/encoder.change_kernel", "single-layer CNN encoder: change_kernel falls back to add_layer, which is disabled inside encoders -> advertised but no effect"),
     ("C03", "", "Conv3d kernels: change_kernel rejects the int kernel size it returns itself; tuple kernels are flattened to ints in init_dict so rebuild/clone() get different shapes (clone swallows the RuntimeError)"),
